@@ -3,18 +3,20 @@ import astq
 from rules import aes, argon, decode, driver, jitcross
 
 LEVEL = 'other'
-TECHNIQUE = 'CFG dominance on the drivers, definite-assignment of per-program VM state, decoder def-use path enumeration, guard/capture agreement of the set_cache shortcut, sibling comparison of call sequences'
+TECHNIQUE = 'CFG dominance on the drivers, definite-assignment of per-program VM state, decoder def-use path enumeration, guard/capture agreement of the set_cache shortcut, sibling comparison of call sequences; vtable-resolved effect comparison of the two binding setters'
 CLAIM = ('Decides statically the mechanisms that make a hash independent of object history: the scratchpad refill and rounding reset dominate every program run in all '
          'drivers and cover the whole workspace; every per-program VM field is assigned by initialize(); the bytecode decoder defines every field its executors read '
          '(bytecode[] survives across programs, keys and v1/v2 switches, so an undefined field would be a stale one); key bookkeeping follows every bind; the same-key '
          'shortcut of randomx_vm_set_cache compares every pointer a setCache override captures; v1/v2 switches reach the compiler; first/next/last are the single-call '
          'sequence. Equality of digests over histories is numeric and not claimed.'
-         ' Also: every v1/v2 patch the AArch64 back-end applies to its persistent code buffer is undone by the other arm (V2-SYM), and the fused fingerprint-and-refill covers exactly the scratchpad for every size (AES-COVER).')
+         ' Also: every v1/v2 patch the AArch64 back-end applies to its persistent code buffer is undone by the other arm (V2-SYM), and the fused fingerprint-and-refill covers exactly the scratchpad for every size (AES-COVER).'
+         ' In every concrete VM class at most one of the resolved virtual setters setCache / setDataset writes to the object (BIND-EXCL, vtables of the linked IR), because randomx_create_vm calls both and the two pointers share storage.')
 LEVEL_NOTE = ('Trusted: clang 14 AST of the build flags; the design assumption that cache content is a function of the key; hand-written asm prologue zeroes r0-r7 '
               '(checked as constants in C04), JIT-emitted code reads only what initialize()/generateProgram wrote.')
 EXPLANATION = ('Rules DRV-RESET, DRV-SEQ, DRV-SIB, DRV-REFILL, VM-STATEINIT, BIND-KEY, BIND-GUARD, FLAG-PROP and DEC-DEFUSE evaluated on the resolved AST of '
                'src/randomx.cpp, virtual_machine.cpp, vm_*.cpp and bytecode_machine.cpp for every template instantiation.'
-               ' V2-SYM (A64), AES-FUSED, AES-COVER, A2-SKELETON.')
+               ' V2-SYM (A64), AES-FUSED, AES-COVER, A2-SKELETON.'
+               ' BIND-EXCL.')
 
 
 def run(ctx, R):
